@@ -97,6 +97,18 @@ CHECKS["C02"] = dict(
          "composition and characters above U+2FFFF outside. Known findings (open): integer literals via int(), blanks inside xs:decimal.",
     ref="DESIGN.md 5/C02")
 
+CHECKS["C03"] = dict(
+    technique=TECH + " - attribute maps assembled from symbolic presence flags/value indices (finite choice) through schema.iter_errors/"
+                     "decode, vs. a set-based reference of the attribute validation rules",
+    category="model_checking",
+    text="For each wildcard variant (none, ##other lax/strict, ##any strict, ##local skip, ##targetNamespace lax) and both XSD versions the "
+         "engine explores every subset of <=2 (quick) / <=4 (thorough) of 12 candidate attributes (declared required/optional/fixed/default/"
+         "qualified/global-ref/group, unqualified spellings, foreign, undeclared, unreferenced global) with every listed lexical value and "
+         "compares the verdict with the reference; and the decoded data for every presence combination x use_defaults x fill_missing.",
+    note="Finite-choice (certified exhaustive within the pool). Value dimension limited to int/boolean/decimal lexical variants (C02 covers "
+         "datatypes); xsi:* attributes are C07 territory.",
+    ref="DESIGN.md 5/C03")
+
 NOT_APPLICABLE = {
     "C18": "quantifies over thread interleavings; no engine of this family here executes Python threads symbolically (CrossHair is "
            "single-threaded); see DESIGN.md section 6",
